@@ -1,6 +1,19 @@
-"""C08 part 'gensink': DistPacketGenerator law, PacketSink books, and conservation through random
-pipelines of REAL elements (generator -> elements -> sinks), checked by the monitor (the composition
-theorem C08_network_conserves + the per-element theorems carry the proof side)."""
+"""C08 part 'gensink': DistPacketGenerator law, PacketSink books, and conservation through pipelines of REAL elements.
+
+kinds:  'gen', 'sink'   the generator law and the sink's books (models in coq/Elem/GenSink.v)
+        'pipeline'      generators -> chain of 1-3 real elements of ANY kind (incl. DRR, WFQ, FlowDemux fan-out) -> per-flow
+                        sinks, run to quiescence under the conservation monitor; no Coq model of the composition
+                        (proof side: C08_network_conserves + the per-element theorems)
+        'pipe'          linear pipelines of 2-3 real elements among those with an interface adapter (Wire, Port incl. rate 0,
+                        TokenBucket, SP, RR, WRR), all in ONE Environment driven by the elem_common harness with taps
+                        BETWEEN the stages.  The observed GLOBAL action sequence is replayed in the composite Coq model
+                        `pipeline E0 [E1; E2]` (coq/Elem/Compose.v: every action must be admissible for the composite, and
+                        must show exactly the observed hand-overs at every stage boundary and the final deliveries), and the
+                        projection of the log onto every stage is replayed by that element's own part (port_agree,
+                        wire_agree, tb_agree, mq_agree: counters, store lengths, stamps after every action).  The log ->
+                        action mappings are the element parts' own (part_wire._actions, part_port._actions,
+                        part_bucket._obs_term, part_mq._actions); this file only splits the global log per stage.
+                        Theorems: Props/C08_Pipe.v."""
 from fractions import Fraction
 
 from vlib import coqfmt as cf
@@ -121,20 +134,30 @@ class GenSinkPart:
                               "sink: random delivery sequences over 1-3 keys with all 8 flag combinations, keyed by flow id or by source; "
                               "pipeline: 1-3 generators -> chain of 1-3 real elements (wire, port with/without limit, token bucket, "
                               "SP/RR/WRR/DRR/WFQ, FlowDemux fan-out) -> per-flow sinks, run until the event queue is empty; "
-                              "non-trivial = at least 3 packets (gen: >= 3 emissions; sink: >= 3 deliveries over >= 2 keys; pipeline: >= 4 packets injected)"}
+                              "pipe: 2-3 stages drawn from wire (constant / random / zero delays, loss 1/4 or 1/2 with scripted draws when it is "
+                              "the only wire), port (rates 512/1024/4096 or 0, no limit / byte limit / packet limit), token bucket (bucket 0..1024 B, "
+                              "peak unset / 0 / set), SP / RR / WRR over flows 0-2, bursty workloads of 1-8 packets from 1-3 drivers on a dyadic "
+                              "lattice, drivers created before or after the elements, elements constructed first-to-last or last-to-first; "
+                              "non-trivial = at least 3 packets (gen: >= 3 emissions; sink: >= 3 deliveries over >= 2 keys; pipeline: >= 4 packets "
+                              "injected; pipe: >= 3 packets injected and at least one delivered by the last stage)"}
     trusted_base = {"C08": ["arrival_dist/size_dist/delay_dist are scripted sequences",
-                            "pipelines are checked on the real code by the conservation monitor only; the proof side is the composition "
-                            "theorem C08_network_conserves applied to the per-element conservation theorems"]}
+                            "kind 'pipeline' (fan-out, DRR, WFQ, generators and sinks in the loop) is checked on the real code by the conservation "
+                            "monitor only; its proof side is C08_network_conserves applied to the per-element conservation theorems",
+                            "kind 'pipe': the processes and stores of stage k are told apart by renaming the generator objects (run@k, "
+                            "send_packet@k through an instance-level wrapper of send_packet) and by object identity of the kernel Stores; "
+                            "the hand-over tap between two stages calls the real put() of the next element synchronously, as `out.put` does",
+                            "kind 'pipe': admissibility of the real kernel's global interleaving for the composite model is checked on every "
+                            "observed execution, not proved (DESIGN 2.4)"]}
     partial = {"C08": []}
 
     # ------------------------------------------------------------------------------------------
     def gen_case(self, rng, tier, prop_id):
         r = rng.random()
-        if r < 0.25:
+        if r < 0.22:
             return self._gen_gen(rng)
-        if r < 0.45:
+        if r < 0.38:
             return self._gen_sink(rng)
-        if r < 0.7:
+        if r < 0.6:
             return self._gen_pipeline(rng)
         return self._gen_pipe(rng)
 
